@@ -156,6 +156,10 @@ CONF = {
     ],
     "trace": {"module": "EvictTrace", "cfg": "Trace.cfg", "timeout": {"quick": 600, "thorough": 1500}},
     "signature": sig,
+    # observed values the trace spec binds (binding self-test of the pipeline corrupts one of them in an accepted run):
+    # the returned ReleaseList, the executor's answer and the task an Evict call was made for.  `newly` (second return
+    # value, "something was evicted") is logged for the reader only; the property says nothing about it.
+    "selftest_keys": ("released", "ok", "task"),
     "rule": "one segment = one run of the real eviction loop on one case (enumerated or seeded random); distinct by "
             "content hash, non-trivial = at least one recorded call or return after the reset",
     "assumptions": [
